@@ -18,4 +18,5 @@ def run_case(c):
     b = make(c["b"], c["how_b"])
     if a is None or b is None:
         return {"status": "skipped", "detail": "library could not re-parse its own message (C03 matter)"}
-    return {"status": "ok", "eq": bool(a == b), "ne": bool(a != b), "sym": bool(b == a)}
+    return {"status": "ok", "eq": bool(a == b), "ne": bool(a != b), "sym": bool(b == a),
+            "view_a": msggen.describe(a), "view_b": msggen.describe(b)}
